@@ -530,6 +530,127 @@ func (u *Universe) strPreamble(b *strings.Builder) {
 	}
 }
 
+// symbolsOf: the identifier-like tokens of an SMT text
+func symbolsOf(text string, into map[string]bool) {
+	start := -1
+	for i := 0; i <= len(text); i++ {
+		var c byte = ' '
+		if i < len(text) {
+			c = text[i]
+		}
+		if c == ' ' || c == '(' || c == ')' || c == '\n' {
+			if start >= 0 {
+				into[text[start:i]] = true
+				start = -1
+			}
+		} else if start < 0 {
+			start = i
+		}
+	}
+}
+
+// declPreambleFor: only the declarations and axioms relevant to the symbols used by a query
+// (an axiom is relevant when one of the declared symbols it is about is used; relevance is closed
+// under the symbols the included axioms mention)
+func (u *Universe) declPreambleFor(b *strings.Builder, used map[string]bool) {
+	axSyms := map[string]map[string]bool{}
+	for _, l := range u.axiomOrd {
+		m := map[string]bool{}
+		symbolsOf(u.axioms[l], m)
+		keep := map[string]bool{}
+		for sym := range m {
+			if _, declared := u.decls[sym]; declared {
+				keep[sym] = true
+			}
+		}
+		axSyms[l] = keep
+	}
+	inc := map[string]bool{}
+	for changed := true; changed; {
+		changed = false
+		for _, l := range u.axiomOrd {
+			if inc[l] {
+				continue
+			}
+			rel := false
+			key := ""
+			if strings.HasPrefix(l, "wf.") {
+				key = strings.TrimPrefix(l, "wf.")
+			} else if strings.HasPrefix(l, "msize.nonneg.") {
+				key = strings.TrimPrefix(l, "msize.nonneg.")
+			} else if strings.HasPrefix(l, "alloc.nonneg.") {
+				key = strings.TrimPrefix(l, "alloc.nonneg.")
+			}
+			if key != "" {
+				rel = used[key]
+			} else {
+				if len(axSyms[l]) == 0 {
+					rel = true
+				}
+				for sym := range axSyms[l] {
+					if used[sym] {
+						rel = true
+					}
+				}
+			}
+			if rel {
+				inc[l] = true
+				changed = true
+				for sym := range axSyms[l] {
+					used[sym] = true
+				}
+			}
+		}
+	}
+	b.WriteString("(declare-fun godiv (Int Int) Int)\n(declare-fun gorem (Int Int) Int)\n")
+	for _, sym := range u.declOrd {
+		if used[sym] {
+			b.WriteString(u.decls[sym])
+			b.WriteString("\n")
+		}
+	}
+	for _, l := range u.axiomOrd {
+		if inc[l] {
+			b.WriteString(u.axioms[l])
+			b.WriteString(" ; ")
+			b.WriteString(l)
+			b.WriteString("\n")
+		}
+	}
+}
+
+// preambleFor: the preamble restricted to what a query (its body text) can use
+func (u *Universe) preambleFor(body string) string {
+	used := map[string]bool{}
+	symbolsOf(body, used)
+	var b strings.Builder
+	full := u.preamble()
+	// everything up to the declarations (sorts, datatypes, strings) is kept as is
+	cut := strings.Index(full, "(declare-fun godiv ")
+	if cut < 0 {
+		return full
+	}
+	b.WriteString(full[:cut])
+	// declarations may mention other declared symbols only through axioms; definitions (define-fun) may too
+	for changed := true; changed; {
+		changed = false
+		for _, sym := range u.declOrd {
+			if used[sym] && strings.HasPrefix(u.decls[sym], "(define-fun") {
+				m := map[string]bool{}
+				symbolsOf(u.decls[sym], m)
+				for k := range m {
+					if !used[k] {
+						used[k] = true
+						changed = true
+					}
+				}
+			}
+		}
+	}
+	u.declPreambleFor(&b, used)
+	return b.String()
+}
+
 func (u *Universe) declPreamble(b *strings.Builder) {
 	b.WriteString("(declare-fun godiv (Int Int) Int)\n(declare-fun gorem (Int Int) Int)\n")
 	for _, sym := range u.declOrd {
